@@ -30,3 +30,17 @@ pub fn run(sc: &Value) -> Value {
         }
     }
 }
+
+/// C19: a statement document through the public parser: which version it is read as, and whether it comes back out unchanged
+pub fn run_doc(sc: &Value) -> Value {
+    let doc = build(&sc["doc"]);
+    match serde_json::from_str::<StatementWrapper>(&doc.to_string()) {
+        Err(e) => json!({"outcome":"err","message":e.to_string()}),
+        Ok(w) => {
+            let variant = match &w { StatementWrapper::Naive(_) => "Naive", StatementWrapper::V0_1(_) => "V0_1" };
+            let back = serde_json::to_value(&w).unwrap();
+            let back = if back.get("V0_1").is_some() { back["V0_1"].clone() } else if back.get("Naive").is_some() { back["Naive"].clone() } else { back };
+            json!({"outcome": format!("ok:{}", variant), "reserialised_equal": back == doc})
+        }
+    }
+}
